@@ -10,6 +10,7 @@ RULE = ("nn-op catalogue x {functional, Module} forms x geometry / mode / reduct
         "forward (affine ops exact, others Richardson); relu-family zeros and pooling ties judged by subgradient conditions; dropout mask "
         "pinned by re-seeding; operands stored contiguously or as strided / transposed / shared-base views; single-requiring-input patterns; saturating magnitudes (|x|<=800) for the exp-based ops; batch-norm outputs differentiated after a later training-mode call on the same buffers; distinct key = (op, form, args, value class, g class); non-trivial = output has >1 element or a reduced "
         "loss, and g is not all-ones")
+RULE += (' Added after the seeded rounds: the same op called a second time on other values before the backward of the first (`twice`), second backward doubles, hard labels as integer / bool tensors, batch-norm inference forward followed by a training forward on the same statistics.')
 ASSUMPTIONS = ["reference derivative = derivative of the library's own forward (values decided by C06)",
                "FD tolerance 1e-9 (affine) / 1e-6 (Richardson) relative to max(1,|phi|,|grad|); disagreeing FD estimates => inconclusive sample",
                "operands with more than 64 elements are checked on 24 seeded coordinates plus 4 random directions",
